@@ -20,12 +20,13 @@ Open Scope Z_scope.
 
 Inductive fmt := Nii | Pair | Mgh | Spm.
 (* NIfTI-1 single file; NIfTI-1 .img/.hdr pair; MGH/MGZ; SPM2 Analyze .img/.hdr/.mat triple *)
-Inductive dtype := F4 | F8.
+Inductive dtype := F4 | F8 | I2 | U1.      (* float32, float64, int16, uint8 on disk *)
 Definition fmt_eqb (a b : fmt) : bool :=
   match a, b with Nii, Nii | Pair, Pair | Mgh, Mgh | Spm, Spm => true | _, _ => false end.
 Definition dtype_eqb (a b : dtype) : bool :=
-  match a, b with F4, F4 | F8, F8 => true | _, _ => false end.
-Definition isz (d : dtype) : Z := match d with F4 => 4 | F8 => 8 end.
+  match a, b with F4, F4 | F8, F8 | I2, I2 | U1, U1 => true | _, _ => false end.
+Definition isz (d : dtype) : Z := match d with F4 => 4 | F8 => 8 | I2 => 2 | U1 => 1 end.
+Definition is_int (d : dtype) : bool := match d with I2 | U1 => true | _ => false end.
 
 Record pinfo := mkP { pi_fmt : fmt; pi_gz : bool }.
 
@@ -39,7 +40,15 @@ Record cfg := mkCfg {
   g_off : fmt -> Z;                          (* data offset in the image file *)
   g_foot : fmt -> Z;                         (* bytes after the data (MGH footer) *)
   g_conv : list (fmt * fmt * dtype * dtype); (* class conversion by save(): (from, to, header dtype) -> dtype *)
-  g_fix : bool }.                            (* unmap_if_target present (fix 0c06baeb) *)
+  g_fix : bool;                              (* unmap_if_target present (fix 0c06baeb) *)
+  (* integer storage: value = raw * slope + inter.  A pair (slope, inter) is an abstract SCALE IDENTITY
+     (0 = no scaling).  Saving a value array to an integer dtype recomputes the factors from the data:
+     an oracle table (format, dtype, value) -> scale identity, measured from the array writers *)
+  g_scale : list (fmt * dtype * nat * nat);
+  g_nointer : fmt -> bool;                   (* the class has a slope but no intercept (SPM Analyze) *)
+  g_mixed : bool;                            (* the value arrays of this history have both signs *)
+  g_lowdim : bool;                           (* fewer than three axes: MGHImage pads by ArrayProxy.reshape *)
+  g_reshape_ok : bool }.                     (* ArrayProxy.reshape keeps slope and intercept *)
 
 Definition pinfo_of (g : cfg) (p : nat) : pinfo := nth p (g_paths g) (mkP Nii false).
 Definition fid (g : cfg) (p : nat) : nat := nth p (g_fid g) p.
@@ -51,16 +60,25 @@ Fixpoint conv_lookup (t : list (fmt * fmt * dtype * dtype)) (a b : fmt) (d : dty
     if fmt_eqb a a' && fmt_eqb b b' && dtype_eqb d d' then Some r else conv_lookup rest a b d
   end.
 
+Fixpoint scale_lookup (t : list (fmt * dtype * nat * nat)) (f : fmt) (d : dtype) (v : nat) : nat :=
+  match t with
+  | [] => O
+  | (f', d', v', r) :: rest =>
+    if fmt_eqb f f' && dtype_eqb d d' && Nat.eqb v v' then r else scale_lookup rest f d v
+  end.
+
 (* what a file holds *)
-Record content := mkK { k_val : option nat;   (* Some v: source value v; None: garbage *)
-                        k_dt : dtype; k_aff : nat }.
+Record content := mkK { k_val : option nat;   (* Some v: decodes to source value v; None: garbage *)
+                        k_dt : dtype; k_aff : nat;
+                        k_scl : nat }.        (* scale identity of the stored slope / intercept *)
 
 Definition needed (g : cfg) (p : nat) (d : dtype) : Z := g_off g (pi_fmt (pinfo_of g p)) + g_n g * isz d.
 Definition flen (g : cfg) (p : nat) (c : content) : Z :=
   needed g p (k_dt c) + g_foot g (pi_fmt (pinfo_of g p)).
 Definition roundup (x page : Z) : Z := (x + page - 1) / page * page.
 
-Inductive src := SArray (v : option nat) | SProxy (p : nat) (d : dtype) (mm : bool).
+(* a proxy copies dtype AND scale factors out of the header when the image is loaded *)
+Inductive src := SArray (v : option nat) | SProxy (p : nat) (d : dtype) (k : nat) (mm : bool).
 Inductive cache := CNone | CCopy (v : option nat) | CAlias (p : nat) (d : dtype).
 Record image := mkI { i_src : src; i_fmt : fmt; i_hdt : dtype; i_aff : nat; i_cache : cache }.
 Record world := mkW { w_fs : list (option content); w_imgs : list (option image); w_dead : bool }.
@@ -82,10 +100,12 @@ Inductive rd := RVal (v : option nat) | RRefused | RCrash.
 (* array_from_file through a proxy whose spec says dtype d: a file with the same layout gives
    its values; another layout gives garbage when the file is long enough, else the short-read
    OSError (np.memmap raises ValueError on a short file and array_from_file falls back to read) *)
-Definition fresh_read (g : cfg) (fs : list (option content)) (p : nat) (d : dtype) : rd :=
+Definition fresh_read (g : cfg) (fs : list (option content)) (p : nat) (d : dtype) (k : nat) : rd :=
   match nth (fid g p) fs None with
   | None => RRefused
-  | Some c => if dtype_eqb (k_dt c) d then RVal (k_val c)
+  | Some c => if dtype_eqb (k_dt c) d then
+                (* same layout; stored integers are decoded with the factors the PROXY holds *)
+                if is_int d && negb (Nat.eqb (k_scl c) k) then RVal None else RVal (k_val c)
               else if needed g p d <=? flen g p c then RVal None else RRefused
   end.
 
@@ -100,20 +120,20 @@ Definition alias_read (g : cfg) (fs : list (option content)) (p : nat) (d : dtyp
 Definition denote (g : cfg) (fs : list (option content)) (im : image) : rd :=
   match i_src im with
   | SArray v => RVal v
-  | SProxy p d mm => fresh_read g fs p d
+  | SProxy p d k mm => fresh_read g fs p d k
   end.
 
 (* is np.asanyarray(dataobj) a memory map of its file?  (mmap on, plain file) *)
 Definition mapped (g : cfg) (im : image) : option nat :=
   match i_src im with
-  | SProxy p d mm => if mm && negb (pi_gz (pinfo_of g p)) then Some p else None
+  | SProxy p d k mm => if mm && negb (pi_gz (pinfo_of g p)) then Some p else None
   | SArray _ => None
   end.
 (* is get_fdata()'s float64 result that very map?  (little-endian float64 on disk: astype(copy=False)
    returns its argument; MGH data are big-endian and always copied) *)
 Definition aliasable (g : cfg) (im : image) : option (nat * dtype) :=
   match i_src im with
-  | SProxy p d mm =>
+  | SProxy p d k mm =>
     if mm && negb (pi_gz (pinfo_of g p)) && dtype_eqb d F8
        && negb (fmt_eqb (pi_fmt (pinfo_of g p)) Mgh) then Some (p, d) else None
   | SArray _ => None
@@ -126,15 +146,17 @@ Inductive op :=
 | Uncache (s : nat)
 | EditHdr (s : nat)
 | SetDtype (s : nat)
+| SetInt (s : nat)            (* set_data_dtype(int16) *)
 | Save (s p : nat)
+| SaveU8 (s p : nat)          (* set_data_dtype(uint8); save; set_data_dtype(back) *)
 | SaveFull (s : nat)          (* save onto a name of the image's own class that is a link to /dev/full *)
 | ToBytes (s : nat).
 
-Inductive err := ENoImage | ENoFile | EShortRead | ENoConversion | ENotSerializable | ENoSpace.
+Inductive err := ENoImage | ENoFile | EShortRead | ENoConversion | ENotSerializable | ENoSpace | EWriter.
 Inductive out :=
 | ODone
 | OVal (v : option nat)                                  (* get_fdata: which value (None = garbage) *)
-| OSaved (p : nat) (v : option nat) (d : dtype) (a : nat)  (* what the written file now decodes to *)
+| OSaved (p : nat) (v : option nat) (d : dtype) (a : nat) (k : nat)  (* what the written file now decodes to, and its scale identity *)
 | OBytes (v : option nat) (d : dtype) (a : nat)
 | ORefused (e : err)
 | OCrash
@@ -143,7 +165,7 @@ Inductive out :=
 Definition toggle (f : fmt) (d : dtype) : dtype :=
   match f with
   | Mgh => d                                   (* no other exact float dtype in MGH *)
-  | _ => match d with F8 => F4 | F4 => F8 end
+  | _ => match d with F8 => F4 | _ => F8 end
   end.
 
 Definition set_img (w : world) (s : nat) (im : image) : world :=
@@ -157,7 +179,7 @@ Definition do_load (g : cfg) (w : world) (s p : nat) (mm : bool) : world * out :
   | None => (w, ORefused ENoFile)
   | Some c =>
     if (s <? length (w_imgs w))%nat then
-      (set_img w s (mkI (SProxy p (k_dt c) mm) (pi_fmt (pinfo_of g p)) (k_dt c) (k_aff c) CNone), ODone)
+      (set_img w s (mkI (SProxy p (k_dt c) (k_scl c) mm) (pi_fmt (pinfo_of g p)) (k_dt c) (k_aff c) CNone), ODone)
     else (w, ORefused ENoImage)
   end.
 
@@ -189,32 +211,63 @@ Definition do_fdata (g : cfg) (w : world) (s : nat) : world * out :=
 Definition out_dtype (g : cfg) (im : image) (tf : fmt) : option dtype :=
   if fmt_eqb (i_fmt im) tf then Some (i_hdt im) else conv_lookup (g_conv g) (i_fmt im) tf (i_hdt im).
 
-Definition do_save (g : cfg) (w : world) (s t : nat) : world * out :=
+(* the class conversion to MGH of an image with fewer than three axes wraps the proxy by
+   ArrayProxy.reshape: the reshaped proxy must carry the scale factors along *)
+Definition reshaped (g : cfg) (im : image) (tf : fmt) : image :=
+  if negb (fmt_eqb (i_fmt im) tf) && fmt_eqb tf Mgh && g_lowdim g && negb (g_reshape_ok g) then
+    match i_src im with
+    | SProxy p d k mm => mkI (SProxy p d O mm) (i_fmt im) (i_hdt im) (i_aff im) (i_cache im)
+    | SArray _ => im
+    end
+  else im.
+
+(* make_array_writer refuses (WriterError) to scale data of both signs into an unsigned type when
+   the class has no intercept *)
+Definition writer_refuses (g : cfg) (tf : fmt) (od : dtype) : bool :=
+  g_mixed g && dtype_eqb od U1 && g_nointer g tf.
+
+(* what the written file holds: float storage and MGH (plain cast of integer-valued data) keep the value
+   with no scaling; integer storage elsewhere re-scales: the factors are a function of data and dtype *)
+Definition written (g : cfg) (tf : fmt) (od : dtype) (v : option nat) (a : nat) : content :=
+  if is_int od then
+    if fmt_eqb tf Mgh then mkK (if g_mixed g && dtype_eqb od U1 then None else v) od a O
+    else match v with
+         | Some vv => mkK v od a (scale_lookup (g_scale g) tf od vv)
+         | None => mkK None od a O
+         end
+  else mkK v od a O.
+
+(* [hd]: header dtype used for this save only (SaveU8), else the image's *)
+Definition do_save (g : cfg) (w : world) (s t : nat) (hd : option dtype) : world * out :=
   match img_at w s with
   | None => (w, ORefused ENoImage)
-  | Some im =>
+  | Some im0 =>
     if negb (fid g t <? length (w_fs w))%nat then (w, ORefused ENoFile) else
     let tf := pi_fmt (pinfo_of g t) in
+    let im := match hd with Some d => mkI (i_src im0) (i_fmt im0) d (i_aff im0) (i_cache im0) | None => im0 end in
     match out_dtype g im tf with
     | None => (w, ORefused ENoConversion)
     | Some od =>
       (* data = np.asanyarray(self.dataobj): read BEFORE the target is opened *)
-      match denote g (w_fs w) im with
+      match denote g (w_fs w) (reshaped g im tf) with
       | RRefused => (w, ORefused EShortRead)
       | RCrash => (kill w, OCrash)
       | RVal v =>
+        (* the array writer is made before any file is opened: a refusal touches nothing *)
+        if writer_refuses g tf od then (w, ORefused EWriter) else
         (* unmap_if_target: os.path.samefile - the same FILE, whatever the names *)
         let own_map := match mapped g im with Some p => Nat.eqb (fid g p) (fid g t) | None => false end in
         if own_map && negb (g_fix g) then
           (* without unmap_if_target: the target is opened 'wb' (truncated), the header written,
              then the data are read through the map of that very file *)
-          if roundup (g_off g tf) (g_page g) <? needed g t (match i_src im with SProxy _ d _ => d | _ => od end)
+          if roundup (g_off g tf) (g_page g) <? needed g t (match i_src im with SProxy _ d _ _ => d | _ => od end)
           then (kill w, OCrash)
-          else (mkW (upd (fid g t) (Some (mkK None od (i_aff im))) (w_fs w)) (w_imgs w) (w_dead w),
-                OSaved t None od (i_aff im))
+          else (mkW (upd (fid g t) (Some (mkK None od (i_aff im) O)) (w_fs w)) (w_imgs w) (w_dead w),
+                OSaved t None od (i_aff im) O)
         else
-          (mkW (upd (fid g t) (Some (mkK v od (i_aff im))) (w_fs w)) (w_imgs w) (w_dead w),
-           OSaved t v od (i_aff im))
+          let c := written g tf od v (i_aff im) in
+          (mkW (upd (fid g t) (Some c) (w_fs w)) (w_imgs w) (w_dead w),
+           OSaved t (k_val c) od (i_aff im) (k_scl c))
       end
     end
   end.
@@ -254,7 +307,13 @@ Definition step (g : cfg) (w : world) (o : op) : world * out :=
     | None => (w, ORefused ENoImage)
     | Some im => (set_img w s (mkI (i_src im) (i_fmt im) (toggle (i_fmt im) (i_hdt im)) (i_aff im) (i_cache im)), ODone)
     end
-  | Save s t => do_save g w s t
+  | SetInt s =>
+    match img_at w s with
+    | None => (w, ORefused ENoImage)
+    | Some im => (set_img w s (mkI (i_src im) (i_fmt im) I2 (i_aff im) (i_cache im)), ODone)
+    end
+  | Save s t => do_save g w s t None
+  | SaveU8 s t => do_save g w s t (Some U1)
   | SaveFull s =>
     (* the data are read, the target opened, the write fails with ENOSPC: OSError; no file of the
        world and no image changes (the consumable header values are restored in `finally`) *)
